@@ -181,7 +181,9 @@ def gen_ipython(rng):
     ops, k = [], 0
     for _ in range(rng.choice([3, 4, 5, 6, 7])):
         r = rng.random()
-        if r < .35:
+        if r < .12:
+            ops.append([rng.choice(["reset", "shadow"])])     # the user wipes the namespace / binds the name `jaxtyping` themselves
+        elif r < .4:
             ops.append(["magic", rng.choice("ABC")])
         elif r < .5:
             ops.append(["other", len(ops)])
@@ -195,6 +197,7 @@ IPY_CATALOGUE = [
     [["cell", "f0"], ["magic", "A"], ["cell", "f1"], ["magic", "B"], ["cell", "f2"], ["magic", "B"], ["cell", "f3"]],
     [["other", 1], ["magic", "A"], ["other", 2], ["magic", "C"], ["cell", "g0"], ["other", 3], ["cell", "g1"]],
     [["magic", "A"], ["magic", "A"], ["magic", "A"], ["cell", "h0"]],
+    [["magic", "A"], ["cell", "r0"], ["reset"], ["cell", "r1"], ["shadow"], ["cell", "r2"], ["magic", "B"], ["reset"], ["cell", "r3"]],
 ]
 
 
@@ -205,7 +208,7 @@ def ipy_reference(ops):
             cur = "spy%s.check" % op[1]
         elif op[0] == "other":
             others.append("O%d" % op[1])
-        else:
+        elif op[0] == "cell":
             cells.append([op[1], cur or ""])
     return cells, others, cur
 
@@ -213,6 +216,8 @@ def ipy_reference(ops):
 def ipy_coq(ops):
     out = []
     for op in ops:
+        if op[0] in ("reset", "shadow"):
+            continue          # the model has no user namespace: these steps must change nothing it describes
         out.append("(IMagic %s)" % vf.coqstr("spy%s.check" % op[1]) if op[0] == "magic" else "(IAddOther %d)" % op[1] if op[0] == "other" else "(ICell %s)" % vf.coqstr(op[1]))
     return "[" + "; ".join(out) + "]"
 
@@ -260,6 +265,9 @@ def front_ends(R, root, env):
         if sorted(gx) != sorted(wantx) or [x for x in gx if x.startswith("O")] != others:
             R.violation("property", "IPython magic history %s: shell.ast_transformers is %s, expected the other transformers in order plus exactly one jaxtyping transformer: %s" % (json.dumps(ops), gx, wantx),
                         {"front_end": "ipython", "ops": ops, "got": gx, "expected": wantx}, key={"kind": "ipython-transformers"})
+        if any(x != [[2], True] for x in r.get("selfc", [])):
+            R.violation("property", "IPython magic history %s: the transformer the magic registered does not make a cell self-contained ([positions of `import jaxtyping` in a cell with docstring and __future__ import, runs in an empty namespace] = %s, expected [[2], True])" % (json.dumps(ops), r.get("selfc")),
+                        {"front_end": "ipython", "ops": ops, "got": r.get("selfc")}, key={"kind": "ipython-selfcontained"})
         mc, mx = m.split("|")
         mcells = [x.split("=") for x in mc.split(",")] if mc else []
         if mcells != r["cells"] or sorted(mx.split(",") if mx else []) != sorted(gx):
@@ -286,32 +294,39 @@ def bytecode_pairs(R, env):
              # a hooked module that fails to compile, then the first import of an un-hooked module in the same run; the next run hooks that one
              ([["install", ["brk"], "A", 0, True], ["import", "imp2"]], [["install", ["fo"], "A", 0, True], ["import", "fo"]]),
              ([["install", ["brk", "imp2"], "C", 0, True], ["import", "imp2"], ["import", "foo_bar"]], [["install", ["foo_bar", "fo"], "C", 0, True], ["import", "fo"], ["import", "foo_bar"]])]
+    # an un-hooked run leaves ordinary .pyc files; the next run hooks those modules
+    pairs.append(([["import", "foo_bar"], ["import", "foo.bar.qux"]], [["install", ["foo_bar", "foo"], "A", 0, True], ["import", "foo_bar"], ["import", "foo.bar.qux"]]))
     for _ in range(n):
         pairs.append((gen_history(R.rng), gen_history(R.rng)))
-    def runpair(pr):
+    # every other pair: the second run reads the cache but writes none (python -B / PYTHONDONTWRITEBYTECODE)
+    modes = [("bytecode", "bytecode" if i % 2 == 0 else "nowrite") for i in range(len(pairs))]
+    modes[5] = ("bytecode", "nowrite")
+    pairs.append(pairs[5]); modes.append(("bytecode", "bytecode"))
+    def runpair(prm):
+        pr, md = prm
         root = tempfile.mkdtemp(prefix="vfc11b")
         try:
             make_forest(root)
             outs = []
-            for ops in pr:
-                p = subprocess.run([vf.PY, os.path.join(vf.VERIF, "harness", "impl_hookscope.py"), root, json.dumps(ops), "bytecode"], capture_output=True, text=True, env=env, timeout=300, cwd=root)
+            for ops, m in zip(pr, md):
+                p = subprocess.run([vf.PY, os.path.join(vf.VERIF, "harness", "impl_hookscope.py"), root, json.dumps(ops), m], capture_output=True, text=True, env=env, timeout=300, cwd=root)
                 lines = [l for l in p.stdout.splitlines() if l.startswith("{")]
                 outs.append(json.loads(lines[-1]) if lines else {"error": (p.stderr or p.stdout)[-400:]})
             return outs
         finally:
             shutil.rmtree(root, ignore_errors=True)
     with ThreadPoolExecutor(8) as ex:
-        res = list(ex.map(runpair, pairs))
-    for pr, outs in zip(pairs, res):
+        res = list(ex.map(runpair, list(zip(pairs, modes))))
+    for (pr, md), outs in zip(zip(pairs, modes), res):
         for k, (ops, r) in enumerate(zip(pr, outs)):
             if "error" in r or "loaded" not in r:
                 R.violation("correspondence", "bytecode pair run failed: %s" % str(r)[:300], {"pair": pr}, key={"kind": "pair-run-error"}, no_input=True); continue
             want = reference(ops)
             for mod in sorted(set(want) | set(r["loaded"])):
                 if r["loaded"].get(mod) != want.get(mod):
-                    R.violation("property", "run %d of a pair of runs sharing one __pycache__ (first run %s; second run %s): module %s is %s, the documented rule says %s" % (
-                        k + 1, json.dumps(pr[0]), json.dumps(pr[1]), mod, r["loaded"].get(mod), want.get(mod)),
-                        {"pair": pr, "run": k + 1, "module": mod, "got": r["loaded"].get(mod), "expected": want.get(mod)}, key={"kind": "scope-after-earlier-run", "module": mod})
+                    R.violation("property", "run %d of a pair of runs sharing one __pycache__ (first run %s; second run %s; bytecode modes %s, nowrite = sys.dont_write_bytecode): module %s is %s, the documented rule says %s" % (
+                        k + 1, json.dumps(pr[0]), json.dumps(pr[1]), list(md), mod, r["loaded"].get(mod), want.get(mod)),
+                        {"pair": pr, "modes": list(md), "run": k + 1, "module": mod, "got": r["loaded"].get(mod), "expected": want.get(mod)}, key={"kind": "scope-after-earlier-run", "module": mod})
     return len(pairs)
 
 
